@@ -22,6 +22,9 @@ class Timeout(BaseException):
     pass
 
 
+LONG_DIVERGES = []
+
+
 def _alarm(signum, frame):
     raise Timeout()
 
@@ -36,6 +39,14 @@ def run_guarded(fn, seconds):
             signal.setitimer(signal.ITIMER_REAL, 0)
             return ("ret", r)
         except Timeout:
+            if seconds >= 2:
+                # a real call that was EXPECTED to return did not: remember it; after a few of those the whole run is
+                # abandoned (each one costs its full budget; a check must not sit through hundreds of them)
+                LONG_DIVERGES.append(getattr(fn, "__name__", "call"))
+                if len(LONG_DIVERGES) > 3:
+                    del LONG_DIVERGES[:]
+                    from . import core
+                    raise core.RealTimeout("real serializer calls keep running past their %g s budget" % seconds)
             return ("diverge",)
         except BaseException as e:  # noqa: every exception class is an observable outcome here
             signal.setitimer(signal.ITIMER_REAL, 0)
